@@ -23,7 +23,7 @@ const (
 
 var c07Enums = []string{"bsAscFrom", "bsAscTo", "bsDescTo", "bsDescFrom",
 	"resortKey", "resortCreated", "resortUpdated", "resortExpire", "resortValue"}
-var c07Tris = []string{"pageArith", "limitZeroAll", "comparatorsStandard", "windowOnTimeIndexesOnly",
+var c07Tris = []string{"timestampsFullPrecision", "pageArith", "limitZeroAll", "comparatorsStandard", "windowOnTimeIndexesOnly",
 	"coldFilterCreated", "coldFilterUpdated", "coldFilterExpire", "coldFilterValueType",
 	"addGuardCreated", "addGuardUpdated", "addGuardExpire", "addGuardValueType",
 	"updRefreshCreated", "updRefreshUpdated", "updRefreshValue", "updRefreshExpireOnFlag",
@@ -56,6 +56,11 @@ func c07Run(fs *Facts) {
 		c07LimitZero(fs, f)
 		c07Window(fs, f)
 		c07GetBeacon(fs, f)
+	}
+	if f, err := Load("app/server/gateway/gateway.go"); err != nil {
+		fs.Err("%v", err)
+	} else {
+		c07Timestamps(fs, f)
 	}
 	if f, err := Load(c07Treasure); err != nil {
 		fs.Err("%v", err)
@@ -607,4 +612,35 @@ func c07Flags(fs *Facts, f *File) {
 	}
 	fs.Tri("typeChangeDetected", TriOf(setInSetter > 0), c07At(c07Treasure, f, firstSetter))
 	fs.Tri("flagsSticky", TriOf(cleared == 0), c07At(c07Treasure, f, f.Func("treasure", "SetExpirationTime")))
+}
+
+// the gateway hands the window and the three record timestamps on with their nanosecond part
+func c07Timestamps(fs *Facts, f *File) {
+	po := f.Func("", "parseOptionalTimestamps")
+	kv := f.Func("", "keyValuesToTreasure")
+	tk := f.Func("", "treasureToKeyValuePair")
+	if po == nil || kv == nil || tk == nil || len(po.Type.Params.List) == 0 || len(kv.Type.Params.List) < 3 {
+		return
+	}
+	// parameter names as they are in the source (tolerates renames)
+	var pn []string
+	for _, fl := range po.Type.Params.List {
+		for _, n := range fl.Names {
+			pn = append(pn, n.Name)
+		}
+	}
+	if len(pn) != 2 {
+		return
+	}
+	ps := f.Str(po.Body)
+	pair := kv.Type.Params.List[0].Names[0].Name
+	ks := f.Str(kv.Body)
+	ok := strings.Contains(ps, ":= "+pn[0]+".AsTime()") && strings.Contains(ps, ":= "+pn[1]+".AsTime()") &&
+		strings.Contains(ks, "SetCreatedAt(guardID, "+pair+".GetCreatedAt().AsTime())") &&
+		strings.Contains(ks, "SetModifiedAt(guardID, "+pair+".GetUpdatedAt().AsTime())") &&
+		strings.Contains(ks, "SetExpirationTime(guardID, "+pair+".GetExpiredAt().AsTime())")
+	where := "app/server/gateway/gateway.go:" + itoa(f.Line(po))
+	if ok {
+		fs.Tri("timestampsFullPrecision", Yes, where)
+	}
 }
